@@ -1128,7 +1128,8 @@ int _GD_MakeTempFile(const DIRFILE *D gd_unused_d, int dirfd, char *tmpl)
     }
 
     fd = gd_OpenAt(D, dirfd, tmpl, O_RDWR | O_CREAT | O_EXCL, 0666);
-  } while (errno == EEXIST);
+  } while (fd < 0 && errno == EEXIST); /* retry only a failed creation: a
+                                          successful open leaves errno alone */
 
   free(tmp);
 
